@@ -200,6 +200,20 @@ func genIOAln(r *Rand, formats []string, maxRows, maxLen int) AlnSpec {
 		a.Names = append(a.Names, nm)
 		a.Seqs = append(a.Seqs, genResidues(r, l, a.Alphabet, lower, "-*?", []float64{0, 0.05, 0.2}[r.Intn(3)]))
 	}
+	if nameMax > 10 && r.Chance(0.006) {
+		// names longer than a read buffer (4096 bytes), in some rows or in all
+		all := r.Bool()
+		for i := range a.Names {
+			if all || i == 0 || r.Chance(0.3) {
+				k := r.Pick(4090, 4095, 4096, 4097, 4100, 5000, 8192, 8200)
+				b := []byte(a.Names[i])
+				for len(b) < k {
+					b = append(b, nameCommon[r.Intn(len(nameCommon))])
+				}
+				a.Names[i] = fmt.Sprintf("%s%d", b, i) // distinct
+			}
+		}
+	}
 	if r.Chance(0.015) {
 		// a row whose residues spell a word one of the formats gives a meaning to (every letter of it is a residue of
 		// the alphabet): the whole alignment gets that length
